@@ -70,7 +70,7 @@ func decTrunc(amt sdkmath.Int, ratio osmomath.Dec) sdkmath.Int {
 
 func runC18(c *vk.Ctx) {
 	c.R.Rule = "cases = parameter sets (four proportions summing to one incl. zeros, reduction factor 0..1, reduction period 1..20, start epoch 0..5, 0..8 weighted developer receivers incl. empty-address entries and weights like 1/3 that truncate, initial provision 0..1e13 incl. fractional) run for 5..60 consecutive real mint epochs. For every mint-epoch block the bank events of the block (coinbase, burn, transfer) and the supply queries are compared with the schedule computed exactly: minted = floor(provision); transfers from the mint account to the fee collector / pool-incentives account = floor(M·p); developer share burned from the mint account and floor(floor(M·p_dev)·w_i) released from the vesting account to each receiver (community pool for empty addresses); community pool gets exactly the rest; mint account empty afterwards; SupplyWithOffset grows by exactly M; provision multiplied by the reduction factor exactly at lastReduction + period; nothing minted before the start epoch. distinct_nontrivial counts distinct (#receivers, any empty-address receiver?, dev share truncates?, reduction in this epoch?, before start?, zero proportions mask, minted zero?) tuples per epoch."
-	nSets := c.N(240, 24000)
+	nSets := c.N(720, 24000)
 	c.Cases("params", nSets, func(i int, r *vk.Rng) {
 		epochDur := time.Hour
 		ch := chain.New(chain.Options{NumAccounts: 10, Epochs: map[string]time.Duration{"day": epochDur, "week": 1000 * time.Hour}})
